@@ -231,6 +231,9 @@ func runC10(res *Result, d *Driver, tier string, seed uint64) {
 					}
 				case "callbackFails":
 					param.SyncFunc = func(int) error { return errors.New("refused") }
+					if rng.Bool() { // the refusal must end a program that would run on by itself
+						param.Args = []string{"/bin/sleep", "60"}
+					}
 				case "failAfterAck":
 					param.Args = []string{[]string{"/w/enoexec", "/w/badinterp"}[rng.Intn(2)]}
 				case "runs":
@@ -245,7 +248,20 @@ func runC10(res *Result, d *Driver, tier string, seed uint64) {
 						param.Args = []string{"/bin/false"}
 					}
 				}
-				r := env.Execve(ctx, param)
+				rch := make(chan runner.Result, 1)
+				go func() { rch <- env.Execve(ctx, param) }()
+				var r runner.Result
+				select {
+				case r = <-rch:
+				case <-time.After(15 * time.Second):
+					res.Mismatch(Mismatch{Kind: "oracle", What: "every call returns exactly one answer: the Execve did not return (C10)", Input: fmt.Sprintf("h%d s%d Execve(%v, syncAfter=%v) class %s", h, step, param.Args, syncAfter, outcome),
+						Impl: "no answer within 15 s (the class determines an answer within milliseconds: a refused or failing launch, or a program cancelled after at most 30 ms)", Oracle: "violates"})
+					cancel()
+					dead = true
+				}
+				if dead {
+					break
+				}
 				cancel()
 				apiOk = r.Status != runner.StatusRunnerError
 				// the answer belongs to THIS call: a request that can run is not failed with the parameters of an earlier
@@ -256,6 +272,9 @@ func runC10(res *Result, d *Driver, tier string, seed uint64) {
 				}
 				line = fmt.Sprintf("execve %s %s", b01(syncAfter), outcome)
 				desc = fmt.Sprintf("Execve(%v, syncAfter=%v, %s) -> %v %q", param.Args, syncAfter, outcome, r.Status, r.Error)
+			}
+			if dead {
+				break
 			}
 			pingErr := env.Ping()
 			cRecv, cSent, okp := cl.takeUntilPing()
@@ -293,7 +312,11 @@ func runC10(res *Result, d *Driver, tier string, seed uint64) {
 				res.Sample(q)
 			}
 		}
-		env.Close()
+		if dead { // a call may still hold the environment's lock: do not wait for it
+			go env.Close()
+		} else {
+			env.Close()
+		}
 		cl.w.Close()
 	}
 	// ---- after the transport is lost every later call fails promptly ----
@@ -384,4 +407,3 @@ func runC10(res *Result, d *Driver, tier string, seed uint64) {
 		os.RemoveAll(env.root)
 	}
 }
-
